@@ -54,6 +54,7 @@ func Spec() *run.Spec {
 			"ascii_vertex_row_widths": 36, "wide_row_populations": 10,
 			"ascii_files_read_back_with_a_vertex_row_over_4096_bytes": 40, "ascii_files_read_back_with_a_vertex_row_over_8192_bytes": 25,
 			"ascii_files_read_back_with_a_vertex_row_over_16384_bytes": 12, "ascii_files_read_back_with_a_vertex_row_over_60000_bytes": 6,
+			"lone_component_property_names": 36, "lone_component_properties_written": 500, "block_exact_record_counts": 18,
 			"fault_histories": 500, "good_ops_after_a_failure_in_the_records": 300, "failed_writes_reported": 300, "failed_reads_reported": 100,
 			"write_fault_positions": 6, "write_fault_modes": 2, "write_fault_sites": 7, "read_fault_positions": 5,
 		},
@@ -85,10 +86,11 @@ func Spec() *run.Spec {
 				return 600
 			}, Run: faultSequences, Batch: 50, CPUBudgetS: 60},
 			{Name: "large", Cases: func(t string) int {
+				// directed sizes + block-exact record counts + random sizes
 				if t == "thorough" {
-					return 96
+					return 96 + len(blockExactCases(t))
 				}
-				return 13
+				return 13 + len(blockExactCases(t))
 			}, Run: func(c *run.Ctx) run.Result {
 				o := genOpts{Large: true, MinN: 2000, MaxN: 20000}
 				// directed sizes around 2^16 and 2^17 (allocation / growth boundaries of readers), then random ones
@@ -99,8 +101,12 @@ func Spec() *run.Spec {
 					directed = 4 * len(sizes)
 					o.MaxN = 60000
 				}
-				if c.Case < directed {
+				be := blockExactCases(c.Tier)
+				switch {
+				case c.Case < directed:
 					o.ForceN = sizes[c.Case%len(sizes)]
+				case c.Case < directed+len(be):
+					o = be[c.Case-directed]
 				}
 				return runCase(c, o)
 			}, Batch: 1, CPUBudgetS: 300},
@@ -198,6 +204,16 @@ func runCase(c *run.Ctx, o genOpts) run.Result {
 	r := c.Rng
 	mc := genMesh(r, o)
 	cfg := genConfig(r, mc, o)
+	if !o.UCharScalar && !o.TexOnly && o.Wide == nil && o.FixedAttrs == nil && !o.Large && r.Intn(5) == 0 {
+		// user-named scalars / custom property names that look like one piece of a recognised group
+		for _, n := range addLoneComponents(r, mc, &cfg) {
+			res.SetAdd("lone_component_property_names", n)
+			res.Count("lone_component_properties_written", 1)
+		}
+	}
+	if o.BlockLabel != "" {
+		res.SetAdd("block_exact_record_counts", o.BlockLabel)
+	}
 	s := &caseState{c: c, res: &res, mc: mc, cfg: cfg}
 	s.cols = expectedColumns(mc, cfg)
 	s.lands = landing(s.cols)
@@ -1103,4 +1119,74 @@ func (cfg config) writeTo(w io.Writer, mesh modeling.Mesh, format ply.Format) er
 		return ply.SplatPly{Mesh: mesh}.Write(w)
 	}
 	return cfg.meshWriter(format).Write(mesh, w)
+}
+
+// blockExactCases: record counts that fill the blocks of a batching writer exactly.
+// For every record kind the writer emits — face records of 13 bytes (no texture
+// coordinates) and 38 bytes (with), vertex records of several property sets — and
+// block sizes B ∈ {4096, 8192, 16384, 32768, 65536}: k·⌊B/recordSize⌋ records for
+// k ∈ {1,2,3}, and one less / one more. Quick: the 64 KiB face cases (5041, 10082,
+// 1724, 5172, each ±1) and six vertex cases; thorough: all of them.
+func blockExactCases(tier string) []genOpts {
+	type vset struct {
+		name  string
+		size  int
+		attrs []paletteEntry
+	}
+	pos := paletteEntry{modeling.PositionAttribute, 3, 1, nil}
+	nor := paletteEntry{modeling.NormalAttribute, 3, 1, nil}
+	col := paletteEntry{modeling.ColorAttribute, 3, 1, []string{"unit"}}
+	opa := paletteEntry{modeling.OpacityAttribute, 1, 1, nil}
+	rot := paletteEntry{modeling.RotationAttribute, 4, 1, nil}
+	sca := paletteEntry{modeling.ScaleAttribute, 3, 1, nil}
+	usr := paletteEntry{"intensity", 1, 1, nil}
+	vsets := []vset{
+		{"xyz", 12, []paletteEntry{pos}},
+		{"xyz+rgb", 15, []paletteEntry{pos, col}},
+		{"xyz+n", 24, []paletteEntry{pos, nor}},
+		{"xyz+n+rgb+opacity", 31, []paletteEntry{pos, nor, col, opa}},
+		{"xyz+scale+rot", 40, []paletteEntry{pos, sca, rot}},
+		{"xyz+intensity", 16, []paletteEntry{pos, usr}},
+	}
+	var out []genOpts
+	face := func(rec, B, k, d int) {
+		tex := 2
+		if rec == 38 {
+			tex = 1
+		}
+		n := k*(B/rec) + d
+		out = append(out, genOpts{Large: true, ForcePrims: n, ForceTex: tex,
+			BlockLabel: fmt.Sprintf("face %dB/B=%d/k=%d/%+d", rec, B, k, d)})
+	}
+	vertex := func(v vset, B, k, d int) {
+		n := k*(B/v.size) + d
+		out = append(out, genOpts{Large: true, ForceN: n, FixedAttrs: v.attrs, ForceTex: 2,
+			BlockLabel: fmt.Sprintf("vertex %s %dB/B=%d/k=%d/%+d", v.name, v.size, B, k, d)})
+	}
+	if tier != "thorough" {
+		for _, c := range [][2]int{{13, 1}, {13, 2}, {38, 1}, {38, 3}} {
+			for _, d := range []int{-1, 0, 1} {
+				face(c[0], 65536, c[1], d)
+			}
+		}
+		vertex(vsets[0], 65536, 1, 0)
+		vertex(vsets[0], 4096, 2, 0)
+		vertex(vsets[2], 32768, 1, 0)
+		vertex(vsets[1], 8192, 3, 0)
+		vertex(vsets[3], 16384, 1, 1)
+		vertex(vsets[4], 65536, 2, -1)
+		return out
+	}
+	for _, B := range []int{4096, 8192, 16384, 32768, 65536} {
+		for k := 1; k <= 3; k++ {
+			for _, d := range []int{-1, 0, 1} {
+				face(13, B, k, d)
+				face(38, B, k, d)
+				for _, v := range vsets {
+					vertex(v, B, k, d)
+				}
+			}
+		}
+	}
+	return out
 }
